@@ -34,6 +34,8 @@ THEOREMS = [
          "the step are the documented combinations of the primary constants", strength="full"),
     dict(name="Snow.C01.run_steps", clause="every column of a run is the step function applied to the previous column "
          "with the shelf temperature of that step", strength="full"),
+    dict(name="Snow.C01.initIce_case_insensitive", clause="the selected initial-ice formulation depends on the "
+         "lower-cased string only", strength="full"),
     dict(name="Snow.C01.nonvacuous", clause="hypotheses are satisfiable (default 5 wt.% sucrose constants)",
          strength="nonvacuity"),
 ]
@@ -136,7 +138,8 @@ def predicates(case, impl):
     out = []
     nx, ny, nz = case["N_vials"]
     arr = (case.get("config") or {}).get("snowfall_parameters", {}).get("vial_arrangement", "square")
-    cls = f"{arr},{'pallet' if nz > 1 else 'shelf'},{case.get('initIce', 'indirect')}"
+    init_ice = case.get("initIce", "indirect").lower()   # the formulation the user selected
+    cls = f"{arr},{'pallet' if nz > 1 else 'shelf'},{init_ice}"
     site = "Snowflake.run"
 
     def fail(clause, detail):
@@ -177,11 +180,11 @@ def predicates(case, impl):
     if [int(x) for x in ext] != impl["ext"]:
         fail("external_faces", f"external face counts {impl['ext']} vs {maxint} - degree")
     # shelf coefficient: s0 (+ relative variability) on a shelf, none in a pallet
-    ksh = np.asarray(impl["kShelf"])
-    if nz > 1 and np.any(ksh != 0):
-        fail("shelf_coefficient", "pallet with a shelf coefficient")
-    if nz == 1 and not case["k"].get("s_sigma_rel") and np.any(ksh != case["k"]["s0"]):
-        fail("shelf_coefficient", "shelf coefficient differs from s0 without variability")
+    ksh = fu.spec_kshelf(case, impl)      # implied by the configured coefficients + recorded normals
+    msg = fu.check_kshelf(case, impl)
+    if msg:
+        fail("shelf_coefficient", msg)
+        return out
     # --- heat flows from the OLD state of every step -----------------------------
     A = ph["A"]
     T0s = XT[:-1]
@@ -223,7 +226,7 @@ def predicates(case, impl):
         if np.any(~rel(tt, (ks + 1) * dt)):
             j = int(np.where(~rel(tt, (ks + 1) * dt))[0][0])
             fail("jump_time", f"vial {is_[j]}: t_nucleation {tt[j]!r} vs {(ks[j] + 1) * dt!r}")
-        if case.get("initIce", "indirect") == "indirect":
+        if init_ice == "indirect":
             sp = fu.spec_indirect(ph, Tn)
             if np.any(~rel(s1, sp)):
                 j = int(np.where(~rel(s1, sp))[0][0])
@@ -268,8 +271,9 @@ def classify(case, impl):
         f"kind={case.get('kind')}",
         "arrangement=" + cfg.get("snowfall_parameters", {}).get("vial_arrangement", "square"),
         "pallet" if nz > 1 else "shelf",
-        f"initIce={case.get('initIce', 'indirect')}",
-        "s_sigma_rel>0" if case["k"].get("s_sigma_rel") else "s_sigma_rel=0",
+        f"initIce={case.get('initIce', 'indirect').lower()}",
+        "initIce mixed case" if case.get("initIce", "indirect") != case.get("initIce", "indirect").lower() else "initIce lower case",
+        ("s_sigma_rel>=0.5" if case["k"].get("s_sigma_rel", 0) >= 0.5 else "s_sigma_rel>0") if case["k"].get("s_sigma_rel") else "s_sigma_rel=0",
         "holds" if case["opcond"].get("holds") else "no holds",
         "T0!=start" if case.get("T0") is not None else "T0=start",
         "partial yaml" if [k for k in cfg if k != "snowfall_parameters"] else "default constants",
@@ -284,6 +288,8 @@ def classify(case, impl):
     _TOTALS["nucleation"] += int(mN.sum())
     _TOTALS["solidifying"] += int(mS.sum())
     _TOTALS["runs"] += 1
+    if case["N_vials"][2] == 1 and np.any(fu.spec_kshelf(case, impl) == 0):
+        tags.append("some shelf coefficient clamped to 0")
     nn = int(mN.sum())
     tags.append("nucleations=0" if nn == 0 else "nucleations<10" if nn < 10 else "nucleations>=10")
     tags.append("some vial solidified" if any(not math.isnan(x) for x in impl["tSol"]) else "none solidified")
@@ -366,7 +372,9 @@ def _structured(rng, tier):
     else:
         k["s0"] = rng.choice([200, 500, 1000, 2000, 123.4])
         r = rng.random()
-        if r < 0.4:
+        if r < 0.2:
+            k["s_sigma_rel"] = rng.choice([0.5, 0.8, 1.2])
+        elif r < 0.4:
             k["s_sigma_rel"] = rng.choice([0.05, 0.1, 0.3])
         elif r < 0.6:
             k["s_sigma_rel"] = 0
@@ -389,7 +397,8 @@ def _structured(rng, tier):
         oc["cnTemp"] = rng.choice([-7, -12])
     case = dict(kind="structured", N_vials=shape, k=k, dt=dt, seed=rng.randint(0, 10**6),
                 seed_v=rng.randint(0, 10**6), opcond=oc, T0=None, config=_config(rng, arrangement),
-                initIce=rng.choice(["indirect", "direct"]),
+                initIce=rng.choice(["indirect", "direct", "indirect", "direct", "Indirect", "DIRECT", "InDirect",
+                                    "Direct", "INDIRECT", "dIrEcT"]),
                 threshold=rng.choice([0.9, 0.9, 0.5, 0.99, 0.75]))
     if rng.random() < 0.3:
         case["T0"] = start + rng.choice([5, -3, 0.5, 15])
